@@ -325,7 +325,7 @@ def _quantified(expr):
     return None
 
 
-def _policy(run, F, BASE, rid=rid):
+def _policy(run, F, BASE, rid="R4"):
     P, A = run.P, run.A
     run.rule(rid, "generate_pin returns only a value accepted by is_valid (full policy, no any_pin); "
              "is_valid without any_pin is truthy only if: type bytes, every char in letters+digits, "
